@@ -45,6 +45,18 @@ BatchesB == [g1a |-> <<g1a>>, g1b |-> <<g1b>>, g1y |-> <<g1y>>, g2a |-> <<g2a>>,
              g2y |-> <<g2y>>, g3a |-> <<g3a>>, g4a |-> <<g4a>>, g2p |-> <<g2p>>,
              all |-> <<g1a, g2a, g3a>>]
 
+\* ---- family C: two priority classes with two groups each (rotation inside a class while the other
+\* class comes and goes; a class that runs empty and gets data again)
+h1a == F("h1/a", 1, "h1", 1, 1)
+h1b == F("h1/b", 2, "h1", 2, 1)
+h2a == F("h2/a", 3, "h2", 1, 1)
+l3a == F("l3/a", 4, "l3", 1, 2)
+l4a == F("l4/a", 5, "l4", 1, 2)
+ConfsC == { ("h1" :> T(1, "fifo", 1, FALSE)) @@ ("h2" :> T(1, "fifo", 1, FALSE))
+            @@ ("l3" :> T(0, "fifo", 1, FALSE)) @@ ("l4" :> T(0, "fifo", 1, FALSE)) }
+BatchesC == [h1a |-> <<h1a>>, h1b |-> <<h1b>>, h2a |-> <<h2a>>, hh |-> <<h1a, h2a>>,
+             ll |-> <<l3a, l4a>>, l3a |-> <<l3a>>]
+
 CONSTANT Emit
 \* one line per maximal history: configuration, and per event either the batch
 \* id pushed or the result the specification predicts for the Pop
